@@ -198,7 +198,19 @@ def fail_contract(appname, kind, n, behaviour):
                 with warnings.catch_warnings():
                     warnings.simplefilter("ignore")
                     if behaviour == "hang+timeout":
-                        app.join(timeout=0.2)
+                        import time as _time
+                        t0 = _time.time()
+                        try:
+                            app.join(timeout=0.2)
+                        except TimeoutError:
+                            if _time.time() - t0 > 10:
+                                return f"join(timeout=0.2) on a hanging program raised TimeoutError only after {_time.time() - t0:.0f} s"
+                            raise
+                        except AppStateError:
+                            raise
+                        except Exception as e:
+                            return (f"join(timeout=0.2) on a program that hangs for 60 s ended after {_time.time() - t0:.0f} s with "
+                                    f"{type(e).__name__}: {e} (TimeoutError after 0.2 s expected: the timeout did not fire)")
                     elif behaviour == "hang+cancel":
                         app.cancel()
                         raise RuntimeError("cancelled")
